@@ -42,6 +42,13 @@ def type_map(t: type) -> FormatListType:  # noqa: PLR0911
     raise NotImplementedError(t, " unknown")
 
 
+def _keep_container(value: Any) -> Any:  # noqa: ANN401
+    """
+    Unpack rule for a field that a subclass annotates as a list again (the parent class asked for a tuple or set).
+    """
+    return value
+
+
 def convert_to_payload(dataclass_type: type, msg_id: int | None = None) -> None:
     if msg_id is not None:
         dataclass_type.msg_id = msg_id  # type: ignore[attr-defined]
@@ -51,10 +58,18 @@ def convert_to_payload(dataclass_type: type, msg_id: int | None = None) -> None:
     dataclass_type.format_list = [type_map(type_hints[field.name]) for field in  # type: ignore[attr-defined]
                                   dt_fields]
     for field in dt_fields:
+        if field.default_factory is not dataclasses.MISSING:
+            msg = f"{dataclass_type.__name__}.{field.name}: default_factory is not supported, use a default value"
+            raise NotImplementedError(msg)
         # Arrays and payload lists unpack to a list: restore the container that the type hint asks for.
+        # A converter of our own that was inherited is recomputed for this class, a custom fix_unpack_ rule is kept.
         origin = getattr(type_hints[field.name], "__origin__", None)
-        if origin in (tuple, set) and not hasattr(dataclass_type, f"fix_unpack_{field.name}"):
-            setattr(dataclass_type, f"fix_unpack_{field.name}", staticmethod(origin))
+        inherited = getattr(dataclass_type, f"fix_unpack_{field.name}", None)
+        if inherited is None or inherited in (tuple, set, _keep_container):
+            if origin in (tuple, set):
+                setattr(dataclass_type, f"fix_unpack_{field.name}", staticmethod(origin))
+            elif inherited is not None:
+                setattr(dataclass_type, f"fix_unpack_{field.name}", staticmethod(_keep_container))
     setattr(sys.modules[dataclass_type.__module__], dataclass_type.__name__, vp_compile(dataclass_type))
 
 
